@@ -245,6 +245,11 @@ def main(chk: lib.Check) -> int:
     lib.tlc_expect_violation("DatasetGen", "DatasetGen_noinit.cfg", "ItemFromThisCfg", tag="dg1")
     lib.tlc_expect_violation("DatasetGen", "DatasetGen_noserialinit.cfg", "ItemFromThisCfg", tag="dg2")
     chk.notes["broken_designs_rejected"] = ["pool initializer does not set the worker global", "serial path initialises the global only when unset"]
+    # unbounded in the number of generate calls per process: ItemFromThisCfg as an inductive invariant (Apalache, symbolic)
+    apa = lib.apalache_inductive("MC_DatasetGen", ["DatasetGen.tla"], broken_sub=("InitSetsGlobal == TRUE", "InitSetsGlobal == FALSE"))
+    chk.notes["apalache_inductive_invariant"] = apa
+    if apa.get("available"):
+        chk.models.append(dict(model="DatasetGen/Apalache inductive", what="TypeOK /\\ Strengthening /\\ ItemFromThisCfg /\\ LenExact is inductive (3 mazes, <= 3 workers): holds after any number of generate calls in one process", obligations=apa["obligations"]))
     r = lib.tlc_design("Endpoints", "Endpoints_small.cfg", expect_actions=["DefaultAny", "DefaultRaise", "ComputeSets", "PickSAny", "PickEAny"], tag="ep")
     chk.add_model("Endpoints/small", r, "all graphs <= 2x2, every component, allowed sets {None, one cell, two cells}, 2^3 flags, every draw")
     # ---- (C)
